@@ -467,7 +467,7 @@ func hangLimit(tier string) time.Duration {
 	if tier == "thorough" {
 		return 600 * time.Second
 	}
-	return 150 * time.Second
+	return 300 * time.Second
 }
 
 // runWatched runs a worker and kills it when its progress file has not grown for
